@@ -347,10 +347,22 @@ impl<'a> G<'a> {
                 self.bag -= 1;
             }
             5 => {
+                if self.twin && self.r.chance(1, 2) {
+                    // the main iterator takes the twin's place (and state); track roughly
+                    self.push(Op::new(OpK::SwapTwin));
+                    return;
+                }
                 let tf = self.r.below(self.n as u32 + 1);
                 let tb = self.r.below(self.n as u32 + 1);
                 self.push(Op::ab(OpK::TwinMake, tf, tb));
                 self.twin = true;
+                if self.r.chance(1, 3) {
+                    self.push(Op::new(OpK::SwapTwin));
+                    let (tf, tb) = (tf as usize, (tb as usize).min(self.n - tf as usize));
+                    self.front = tf;
+                    self.back = tb;
+                    self.len = self.n - tf - tb;
+                }
             }
             6 => {
                 let f = self.fault(self.len);
@@ -366,7 +378,7 @@ impl<'a> G<'a> {
             9 => self.adapt(),
             7 => self.inner_step(),
             _ => {
-                let a = self.r.below(3);
+                let a = self.r.below(4);
                 self.push(Op::a(OpK::CloneProbe, a));
             }
         }
@@ -533,7 +545,7 @@ impl<'a> G<'a> {
                     }
                     2 => self.push(Op::new(OpK::Len)),
                     _ => {
-                        let a = self.r.below(3);
+                        let a = self.r.below(4);
                         self.push(Op::a(OpK::CloneProbe, a));
                     }
                 }
